@@ -24,9 +24,9 @@ Definition Surv_now : pmodel := M_surv C07_SURV_NBRECV_FIXED.
 Definition Resp_now : pmodel := M_resp c15_resp_fix.
 Definition XSurv_now : pmodel := M_xsurv c15_xs_fix.
 Definition XResp_now : pmodel := M_xresp c15_xs_fix.
-Definition Pair0_now : pmodel := M_pair PairModel.K0 C08_PAIR0_STOP_WRITABLE_FIXED C08_PAIR0_STALE_FIXED.
-Definition Pair1_now : pmodel := M_pair (PairModel.K1 false) C08_PAIR1_STOP_WRITABLE_FIXED C08_PAIR1_STALE_FIXED.
-Definition Pair1raw_now : pmodel := M_pair (PairModel.K1 true) C08_PAIR1_STOP_WRITABLE_FIXED C08_PAIR1_STALE_FIXED.
+Definition Pair0_now : pmodel := M_pair PairModel.K0 C08_PAIR0_STOP_WRITABLE_FIXED C08_PAIR0_RESIZE_ADMITS_FIXED C08_PAIR0_STALE_FIXED.
+Definition Pair1_now : pmodel := M_pair (PairModel.K1 false) C08_PAIR1_STOP_WRITABLE_FIXED C08_PAIR1_RESIZE_ADMITS_FIXED C08_PAIR1_STALE_FIXED.
+Definition Pair1raw_now : pmodel := M_pair (PairModel.K1 true) C08_PAIR1_STOP_WRITABLE_FIXED C08_PAIR1_RESIZE_ADMITS_FIXED C08_PAIR1_STALE_FIXED.
 Definition Bus_now (raw : bool) : pmodel := M_bus BUS_SEND_NO_AIO_START C03_BUS_START_BEFORE_DETACH raw.
 
 (* each pack runs what the daemon runs *)
